@@ -19,6 +19,12 @@ def build_world(contract_module_names, source_modules):
     for m in contract_module_names:
         w.add_source_module(m)
     libmodels.register_all(w)
+    for m in list(contract_module_names):
+        cm = importlib.import_module(m)
+        for em in getattr(cm, 'EXTERNAL_CONTRACTS', {}):
+            if em not in contract_module_names:
+                contract_module_names = list(contract_module_names) + [em]
+                w.add_source_module(em)
     for m in contract_module_names:
         cm = importlib.import_module(m)
         if hasattr(cm, 'lib_models'):
@@ -61,6 +67,8 @@ def run_contracts(world, contracts, uses, mode='modular', only=None, procs=None,
     _G.update(world=world, contracts=contracts, uses=uses)
     tasks = []
     for ci, c in enumerate(contracts):
+        if getattr(c, 'external', None):
+            continue      # verified by its own property's check; only used at call sites here
         if only is not None and c.name not in only:
             continue
         for combo_i, combo in enumerate(c.kind_combinations()):
@@ -120,7 +128,7 @@ def aggregate(contracts, results):
                 o['unknowns'].append({'combo': inst['combo'], 'info': inst['info']})
     # expected clauses that produced no instance at all (vacuity)
     for c in contracts:
-        if c.name not in funcs:
+        if c.name not in funcs or getattr(c, 'external', None):
             continue
         for cl in c.ensures:
             oid = f"{c.prop}.{c.name}.{cl.name}"
